@@ -824,6 +824,16 @@ def run(res, tier):
         res.violation("C10.9.true-child-positions", v["file"], v["function"], v["key"], v["line"], v["msg"] + " - the images handled by the virtual levels reach the particles displaced by fractions of the box width")
     res.instance("C10.9.true-child-positions", "top-tree kernel calls", "src/algorithms/periodic", "%d call sites role-coherent" % n9)
     res.floor("C10.9", n9, 12, "top-tree kernel call sites")
+    res.rule("C10.10 the periodic ordering bins a particle by the cell that CONTAINS its stored position (rule C06.6: coordinate = min(floor(x / leaf width), N-1) for every x in the closed box, decided over the abstract cell number): the +-box-width shift of the near field and the leaf centres of P2M / L2P are relative to that cell; a wrapped coordinate puts an upper-face particle a box width away from its leaf")
+    import c06
+    sub10 = tbf.Result("C06")
+    c06.grid_range(facts, sub10)
+    for i in sub10.instances:
+        if i["rule"].startswith("C06.6.cell-of-position"):
+            res.instance("C10.10.cell-of-position", i["key"], i["at"], i["detail"])
+    for v in sub10.violations:
+        res.violation("C10.10.cell-of-position", v["file"], v["function"], v["key"], v["line"], v["msg"])
+    res.floor("C10.10", len([i for i in sub10.instances if i["rule"].startswith("C06.6.cell-of-position")]), 2, "returns of getTreeCoordinate")
     morton_nb = morton_interactions(facts)
     res.instance("C10.2.window-extent", "getNbInteractionsPerCell", "src/spacial/tbfmortonspaceindex.hpp", "%d^Dim - %d^Dim" % morton_nb)
     summ = {}
